@@ -188,6 +188,16 @@ CLAIMED = {
              "produce exactly the strings checked.",
         technique="Coq proof (induction over the splitting loop with a string-start invariant; list lemmas for de-duplication and lookup) + link-and-run correspondence with tiny work groups",
         design_ref="DESIGN.md §3 C07"),
+    "C32": dict(
+        text="S1: Gallina models of wild's find_match (first exact node; else last node with a `*`-less glob; else last node with a `*` glob; else the bare `*`; global before local inside a node) "
+             "and of GNU ld's bfd_find_version_for_sym (first exact node; else the last global wildcard node, else local; the bare `*` last), each node abstracted to its match bits for one "
+             "symbol. Theorem: for every script and symbol whose wildcard matches are of one kind and where no local-only wildcard node follows a global wildcard node, wild picks GNU ld's "
+             "node and hides the symbol exactly when GNU ld does. Two refutation theorems delimit the domain (recorded). The verdef/versym consistency is a structural predicate evaluated "
+             "on wild's output (indices, vd_cnt/vda_next chains, parents, hashes, sh_info), not a theorem.",
+        note="Trusted: whether one pattern matches one name is fnmatch (C15); GNU ld's side is validated on every run against ld 2.40 (0 disagreements); extern C++ patterns, sym@VER definitions, "
+             "anonymous scripts and shared-library version requirements are outside the generated inputs.",
+        technique="Coq proof (induction over the node list relating a reverse scan to GNU ld's forward scan) + model/implementation and spec/GNU-ld correspondence on generated scripts",
+        design_ref="DESIGN.md §3 C32"),
     "C37": dict(
         text="S1 on top of C03: DT_NEEDED = the shared libraries in the verified loaded set, in command-line order. Theorems: listed iff loaded shared library; every --no-as-needed library listed; "
              "an --as-needed library listed only if some loaded file non-weakly references a name whose first definition it is; strictly increasing command-line positions (each at most once).",
